@@ -307,6 +307,19 @@ class Gen:
         return True
 
     def new_lazy(self):
+        """a lazy for hold_lazy/accum_lazy: a fresh user thunk, or one taken from a cell (shared with that cell),
+        or a clone of an existing one"""
+        x = self.r.random()
+        if x < 0.4:
+            c = self.pick("C", "int")
+            if c is not None and not (self.o[c].role == "cloop" and self.depth > 0):
+                z = self.next_z
+                self.next_z += 1
+                self.emit("sample_lazy %d %d" % (z, c))
+                self.lazies.append(z)
+                return z
+        if x < 0.55 and self.lazies:
+            return self.r.choice(self.lazies)
         z = self.next_z
         self.next_z += 1
         self.emit("lazy_new %d %d" % (z, self.r.randint(0, 99)))
